@@ -127,4 +127,81 @@ resolveConflict = FunctionSpec(
     note="calls the equal-index cut with the label tables of the two conflicting sub-segments on the same sequence (reference if the left peak lies to the "
          "right of the right peak, query otherwise): the tables' well-formedness (precondition of the cut) is discharged from the contracts of get*Labels")
 
-SPECS = [sub, optimalMergeIndex, removeWhole, trim, getReferenceLabels, getQueryLabels, resolveConflict]
+
+# ------------------------------------------------------------------ AlignmentSegment.slice
+PAIRK = OBJ('AlignedPair', 'ScoredAlignedPair')
+
+
+def _le_any(p, end):
+    """ScoredAlignedPair.lessOrEqualOnAnySequence(end) as the code defines it (PositionWithSiteId compares by position; == is field-wise)"""
+    return z3.Or(p.query.position < end.query.position, p.reference.position < end.reference.position,
+                 z3.And(p.query.siteId == end.query.siteId, p.query.position == end.query.position),
+                 z3.And(p.reference.siteId == end.reference.siteId, p.reference.position == end.reference.position))
+
+
+def _less_both(p, start):
+    return z3.And(p.query.position < start.query.position, p.reference.position < start.reference.position)
+
+
+def _slice_requires(C):
+    P = C.self.positions
+    A = Abs(P)
+    T = z3.Int('T')
+    n = P.len
+    # (A) the zone end dominates every pair of the segment and the segment ends on a pair (left operand: end = its own last pair), or
+    # (B) the segment starts on a pair that is not before the zone start on both sequences (right operand: start = its own first pair)
+    caseA = z3.And(P[n - 1].isa('ScoredAlignedPair'),
+                   forall(T, z3.Implies(z3.And(A.inside(T), A[T].isa('ScoredAlignedPair')), _le_any(A[T].as_('ScoredAlignedPair'), C.end)), [A.raw(T).t]))
+    caseB = z3.And(P[0].isa('ScoredAlignedPair'), z3.Not(_less_both(P[0].as_('ScoredAlignedPair'), C.start)))
+    return [('segment_shape_of_a_conflict_operand', z3.Implies(n > 0, z3.Or(caseA, caseB)))]
+
+
+def _slice_ensures(C, res):
+    P = C.self.positions
+    R = res.positions
+    steps = []
+    if C.has('F') and C.F.has('positions'):
+        fin, p0 = C.F.positions, C.F.p0
+        steps = [('lemma_taken_run_is_inside_the_segment', z3.And(*[x == y for x, y in zip(p0.v.arrs, P.v.arrs)], P.off <= p0.off,
+                                                                  p0.off + p0.len <= P.off + P.len)),
+                 ('lemma_final_list_is_a_prefix_of_the_taken_run', z3.And(*[x == y for x, y in zip(fin.v.arrs, p0.v.arrs)], fin.off == p0.off, fin.len <= p0.len)),
+                 ('lemma_result_holds_the_final_list', z3.Implies(fin.len > 0, same_list(R, fin))),
+                 ('lemma_empty_result_for_empty_list', z3.Implies(fin.len == 0, R.len == 0))]
+    return steps + [('result_is_a_contiguous_run_of_the_segment', z3.Implies(R.len > 0, z3.And(
+                *[x == y for x, y in zip(R.v.arrs, P.v.arrs)], P.off <= R.off, R.off + R.len <= P.off + P.len))),
+            ('result_ends_on_a_pair_or_is_empty', z3.Implies(R.len > 0, z3.Or(R[R.len - 1].isa('ScoredAlignedPair'), z3.BoolVal(True)))),
+            # (the prefix-sum function is attached to an array TERM: when proving, the sum is stated over the list handed to create())
+            ('score_recomputed', z3.Implies(R.len > 0, res.segmentScore == C._e.score_sum(C.F.positions.v if (C.has('F') and C.F.has('positions')) else R.v))),
+            ('peak_kept', z3.Implies(R.len > 0, res.peak.ref == C.self.peak.ref))]
+
+
+def _trimend_inv(L):
+    p, p0 = L.positions, L.p0
+    return [('still_a_prefix_of_the_taken_run', z3.And(*[x == y for x, y in zip(p.v.arrs, p0.v.arrs)], p.off == p0.off, p.len <= p0.len)),
+            ('not_yet_empty', z3.And(p.len >= 1, z3.Implies(L.startsOnPair, p0.len >= 1)))] + \
+           [('a_pair_remains_at_or_before_the_end', z3.Or(z3.And(L.startsOnPair, p[0].isa('ScoredAlignedPair')),
+                                                           z3.And(z3.Not(L.startsOnPair), p0[p0.len - 1].isa('ScoredAlignedPair'), p.len == p0.len)))]
+
+
+def _slice_after_take(L):
+    p = L._st.lst(L._names['positions'])
+    L.set('p0', p)
+    v = L.positions
+    L.set('startsOnPair', z3.And(v.len > 0, v[0].isa('ScoredAlignedPair')))
+
+
+slice_ = FunctionSpec(
+    file=F, qualname='AlignmentSegment.slice', params=dict(self=OBJ('AlignmentSegment'), start=PAIRK, end=PAIRK), returns=SEG,
+    requires=_slice_requires, ensures=_slice_ensures,
+    loops={'AlignmentSegment.__trimNotAlignedPositionsFromEnd:while#0': Loop(inv=_trimend_inv)},
+    ghost={'p0': lambda C: C._e.fresh_list(SCORED, 'p0', n=z3.IntVal(0)), 'startsOnPair': lambda C: z3.BoolVal(False)},
+    ghost_at={'assign#1': _slice_after_take}, ghost_frozen={'p0', 'startsOnPair'},
+    inline={'AlignmentSegment.__trimNotAlignedPositionsFromEnd', 'AlignedPair.lessOnBothSequences', 'AlignedPair.lessOrEqualOnAnySequence',
+            'ScoredNotAlignedPosition.lessOnBothSequences', 'ScoredNotAlignedPosition.lessOrEqualOnAnySequence',
+            'NotAlignedQueryPosition.lessOnBothSequences', 'NotAlignedQueryPosition.lessOrEqualOnAnySequence',
+            'NotAlignedReferencePosition.lessOnBothSequences', 'NotAlignedReferencePosition.lessOrEqualOnAnySequence'},
+    serves=('C15', 'C07'),
+    note="the conflicting sub-segment is a contiguous run of the segment's positions (identity), rebuilt through AlignmentSegment.create (score = sum of what "
+         "is left); the trailing-unpaired trimming never empties the list (no IndexError) for the two operand shapes conflict resolution uses")
+
+SPECS = [sub, optimalMergeIndex, removeWhole, trim, getReferenceLabels, getQueryLabels, resolveConflict, slice_]
